@@ -24,7 +24,7 @@ from refsftp import s, u32, u64
 from vloop import Livelock
 
 PROP = 'C13'
-BASE = '/dev/shm/asyncssh-verif-c13'
+BASE = '/dev/shm/asyncssh-verif-c13-%d' % os.getpid()       # unique per check run (workers are forked later)
 
 
 def wdir():
